@@ -65,6 +65,12 @@ def scheduler(prog):
     return the(bodies_constructing(prog, r"builder::BuildJob"), "constructs BuildJob")
 
 
+def stream_owner(prog):
+    """The body that owns the job-future stream (calls FuturesUnordered::new): it must drain the
+    stream before returning, whatever the scheduling passes nested in it do."""
+    return the(bodies_calling(prog, r"futures_util::stream::futures_unordered::FuturesUnordered::new"), "creates the job-future stream")
+
+
 def start_self(prog):
     """The body that looks up the .do file and forks it (calls paths::find_do_file)."""
     return the(bodies_calling(prog, r"paths::find_do_file"), "calls paths::find_do_file")
